@@ -172,14 +172,15 @@ class DensityMatrix(StateRepresentationBase):
             probs = np.array(probs)
             if measurement_determinism == "probabilistic":
                 outcome = numpy.random.choice([0, 1], p=probs / np.sum(probs))
+            # an outcome counts as possible if its probability exceeds the rounding noise of the simulation
             elif measurement_determinism == 1:
-                if probs[1] > 0:
+                if probs[1] > 1e-10 * np.sum(probs):
                     outcome = 1
                 else:
                     outcome = 0
 
             elif measurement_determinism == 0:
-                if probs[1] < 1:
+                if probs[0] > 1e-10 * np.sum(probs):
                     outcome = 0
                 else:
                     outcome = 1
